@@ -214,8 +214,15 @@ def build(ctx):
         ctx.unit(f"crop_data[{dt}]", lambda dt=dt: unit_crop_data(ctx, dt))
     ctx.unit("evaluate_instance", lambda: unit_evaluate_instance(ctx))
     ctx.unit("lemmas", lambda: unit_lemmas(ctx))
+    # layout independence of panoptica's own voxel alignment: the candidate-pair routine and the relabelling (C09) align the two arrays
+    # index by index; their obligations (incl. "no memory-order flattening") are regenerated here
+    include_stage(ctx, "C09")
+    # counts are invariant under re-orientation only if relabelling keeps the partition whatever numbering the components got (C04)
+    include_stage(ctx, "C04")
     ctx.add_bounded("c10-transforms", "c10.bounded")
 
 
 def concretise(ctx, o, r):
+    if (o.info or {}).get("stage"):
+        return stage_concretise(ctx, o, r)
     return {"ndim": o.info.get("ndim"), "obligation": o.name}
